@@ -113,7 +113,7 @@ class Scratch:
 		self.root = tempfile.mkdtemp(prefix=f'tranpsim-{tag}-', dir=scratch_base())
 		self.clock = Clock()
 		# per file: set of (mtime_ns) -> content digest; the fault model's premise is that two different contents of one file never share an mtime
-		self.mtime_history: dict[str, dict[int, str]] = {}
+		self.mtime_history: dict[str, dict[float, str]] = {}
 		self._setup_data()
 
 	def _setup_data(self) -> None:
@@ -147,18 +147,20 @@ class Scratch:
 	def edit(self, rel: str, content: bytes, delta_ns: int) -> int:
 		"""Edit a source: advance the clock by delta (may be negative = skew) and stamp the file.
 
-		Enforces the premise of mtime-keyed caches: a different content never re-uses an mtime of the same file.
+		Enforces the premise of mtime-keyed caches ("content and mtime change"): a different content never re-uses an mtime
+		of the same file, where mtime is what os.path.getmtime reports (a float: sub-microsecond steps are invisible to it).
 		"""
 		hist = self.mtime_history.setdefault(rel, {})
 		cd = hashlib.md5(content).hexdigest()
 		t = self.clock.advance(delta_ns)
-		bump = 0
-		while t in hist and hist[t] != cd:
-			bump += 1
-			t = self.clock.advance(1 if delta_ns >= 0 else -1)
-		hist[t] = cd
-		self.write(rel, content, t)
-		return t
+		step = 1000 if delta_ns >= 0 else -1000
+		while True:
+			self.write(rel, content, t)
+			seen = os.path.getmtime(self.path(rel))
+			if seen not in hist or hist[seen] == cd:
+				hist[seen] = cd
+				return t
+			t = self.clock.advance(step)
 
 	def read(self, rel: str) -> bytes | None:
 		try:
